@@ -785,3 +785,139 @@ pub fn heartbeat_pass(interval_ms: u64, queued: usize, away_ms: u64) -> (bool, b
         inner.outbuf.len(),
     )
 }
+
+// ---------------------------------------------------------------------------------
+// HandleProbe: the REAL IoLoopHandle of a channel (call / get / consume / call_nowait) with
+// the I/O thread's ends of its two queues held by the probe: replies are queued beforehand so
+// that the calls return without a second thread.
+// ---------------------------------------------------------------------------------
+pub enum HItem {
+    QosOk,
+    DeclareOk,
+    GetNone,
+    ConsumeOk,
+    ErrServerClosedChannel,
+    ErrClientClosedConnection,
+}
+
+#[derive(Clone, Copy)]
+pub enum HCall {
+    Qos,
+    Declare,
+    Get,
+    Consume,
+    NowaitAck,
+}
+
+/// per call: 0 Ok, 1 FrameUnexpected, 2 EventLoopDropped, 3 ServerClosedChannel,
+/// 4 ClientClosedConnection, 9 another error; then (replies left in the queue, requests in the
+/// mailbox or usize::MAX if its receiver was dropped)
+pub fn handle_calls(
+    queued: Vec<HItem>,
+    reply_tx_gone: bool,
+    mailbox_gone: bool,
+    calls: Vec<HCall>,
+) -> (Vec<u8>, usize, usize) {
+    use amq_protocol::protocol::basic::{AMQPMethod as AmqpBasic, Ack, Consume as AmqpConsume, Get as AmqpGet, Qos, QosOk};
+    use amq_protocol::protocol::queue::{Declare, DeclareOk};
+    use amq_protocol::types::FieldTable;
+    let (slot, mut handle) = ChannelSlot::new(16, 5);
+    let ChannelSlot { rx, tx, .. } = slot;
+    for it in queued {
+        let item: Result<ChannelMessage> = match it {
+            HItem::QosOk => Ok(ChannelMessage::Method(AMQPClass::Basic(AmqpBasic::QosOk(QosOk {})))),
+            HItem::DeclareOk => Ok(ChannelMessage::Method(AMQPClass::Queue(
+                amq_protocol::protocol::queue::AMQPMethod::DeclareOk(DeclareOk {
+                    queue: "q".into(),
+                    message_count: 1,
+                    consumer_count: 2,
+                }),
+            ))),
+            HItem::GetNone => Ok(ChannelMessage::GetOk(Box::new(None))),
+            HItem::ConsumeOk => {
+                let (_ctx, crx) = crossbeam_channel::unbounded();
+                Ok(ChannelMessage::ConsumeOk("t".into(), crx))
+            }
+            HItem::ErrServerClosedChannel => Err(Error::ServerClosedChannel {
+                channel_id: 5,
+                code: 406,
+                message: "gone".into(),
+            }),
+            HItem::ErrClientClosedConnection => Err(Error::ClientClosedConnection),
+        };
+        let _ = tx.try_send(item);
+    }
+    let tx = if reply_tx_gone { None } else { Some(tx) };
+    let rx = if mailbox_gone { None } else { Some(rx) };
+    let mut out = Vec::new();
+    for c in calls {
+        let r: Result<()> = match c {
+            HCall::Qos => handle
+                .call::<_, QosOk>(AmqpBasic::Qos(Qos {
+                    prefetch_size: 0,
+                    prefetch_count: 1,
+                    global: false,
+                }))
+                .map(|_| ()),
+            HCall::Declare => handle
+                .call::<_, DeclareOk>(amq_protocol::protocol::queue::AMQPMethod::Declare(Declare {
+                    ticket: 0,
+                    queue: "q".into(),
+                    passive: false,
+                    durable: false,
+                    exclusive: false,
+                    auto_delete: false,
+                    nowait: false,
+                    arguments: FieldTable::new(),
+                }))
+                .map(|_| ()),
+            HCall::Get => handle
+                .get(AmqpGet {
+                    ticket: 0,
+                    queue: "q".into(),
+                    no_ack: false,
+                })
+                .map(|_| ()),
+            HCall::Consume => handle
+                .consume(AmqpConsume {
+                    ticket: 0,
+                    queue: "q".into(),
+                    consumer_tag: "".into(),
+                    no_local: false,
+                    no_ack: false,
+                    exclusive: false,
+                    nowait: false,
+                    arguments: FieldTable::new(),
+                })
+                .map(|_| ()),
+            HCall::NowaitAck => handle.call_nowait(AmqpBasic::Ack(Ack {
+                delivery_tag: 1,
+                multiple: false,
+            })),
+        };
+        out.push(match r {
+            Ok(()) => 0,
+            Err(Error::FrameUnexpected) => 1,
+            Err(Error::EventLoopDropped) => 2,
+            Err(Error::ServerClosedChannel { .. }) => 3,
+            Err(Error::ClientClosedConnection) => 4,
+            Err(_) => 9,
+        });
+    }
+    let mut left = 0;
+    while handle.verif_try_recv().is_ok() {
+        left += 1;
+    }
+    let mail = match &rx {
+        None => usize::MAX,
+        Some(rx) => {
+            let mut n = 0;
+            while rx.try_recv().is_ok() {
+                n += 1;
+            }
+            n
+        }
+    };
+    drop(tx);
+    (out, left, mail)
+}
